@@ -92,6 +92,11 @@ fn parse_cycle(mut arguments: TagTokenIter<'_>, _options: &Language) -> Result<C
         }
     }
 
+    if values.is_empty() {
+        // `{% cycle name: %}`: a group without values has nothing to cycle through
+        return arguments.raise_error("Value expected.").into_err();
+    }
+
     if name.is_empty() {
         name = itertools::join(values.iter(), "-");
     }
